@@ -42,6 +42,16 @@ def c_op(o):
         return "LROpen %d %s %s %s" % (o["id"], coq_bool(o["unc"]), cz(o["o"]), coq_bool(o["ok"]))
     if k == "rnext":
         return "LRNext %d %s %s" % (o["id"], c_list([c_rec(r) for r in (o.get("recs") or [])]), coq_N(o["end"]))
+    if k == "hwset":
+        return "LHwSet %s" % cz(o["h"])
+    if k == "sub":
+        sp = {"offset": "SOffset %s" % cz(o["sa"]), "earliest": "SEarliest", "latest": "SLatest", "newonly": "SNewOnly", "ts": "STimestamp %s" % cz(o["sa"])}[o["sk"]]
+        tp = {"cancel": "TCancel", "offset": "TOffset %s" % cz(o["ta"]), "latest": "TLatest", "ts": "TTimestamp %s" % cz(o["ta"])}[o["tk"]]
+        end = o["end"]
+        code = {"stop": 0, "roend": 1, "wait": 2, "eof": 3, "invalid": 4, "empty": 5, "noreader": 6}.get(end)
+        if code is None:
+            code = 7 if "timestamp is before" in end else 99
+        return "LSub (%s) (%s) %s %s %s" % (sp, tp, coq_bool(o["rev"]), c_list([cz(x) for x in (o.get("offs") or [])]), coq_N(code))
     if k == "cleanc":
         return "LCleanC %s" % cz(o["ttl"])
     if k == "rread":
@@ -67,7 +77,7 @@ def eval_log_cases(ctx, cases, tag, shard=40):
     jobs = []
     for s in range(0, len(cases), shard):
         part = cases[s:s + shard]
-        txt = "From LB Require Import Base.Prelude Log.Model Log.Retention Log.Compact Log.Check.\nOpen Scope Z_scope.\n"
+        txt = "From LB Require Import Base.Prelude Log.Model Log.Retention Log.Compact Api.Range Log.Check.\nOpen Scope Z_scope.\n"
         sentinel = "{| lc_maxb := 100; lc_cc := false; lc_lim := mkLimits 0 0 0; lc_ops := [LState 12345 0 0] |}"
         txt += "Definition CS : list lcase := [\n %s].\n" % ";\n ".join([c_case(c) for c in part] + [sentinel])
         txt += "Definition M := Eval vm_compute in lcases_mismatches CS 0.\nPrint M.\n"
